@@ -85,14 +85,21 @@ def run(ck, ix, tier):
     search = nodes_calling(cfg, "parse_unit_name")
     ck.check(len(exact) == 1, "G-DOM", "get_name|exact-lookup-present", fi.loc(), "exact table lookup present", "get_name no longer tries the exact table lookup")
     ck.floor("G-DOM", len(search), 1, "prefix/suffix search in get_name")
+    from .. import shape
+    key_of = lambda r: norm(cfg.nodes[r].ast.value)[len("self._units["):-len("].name")]
+    keys = {key_of(e) for e in exact}
+    absent = shape.guard_edges(cfg, lambda a_: isinstance(a_, ast.Compare) and isinstance(a_.ops[0], ast.In) and norm(a_.comparators[0]) == "self._units" and norm(a_.left) in keys, want=False)
     for s in live(cfg, search):
-        p = undominated(cfg, [s], exact)
-        ck.check(p is None, "G-DOM", "get_name|exact-lookup-before-prefix-search", fi.loc(cfg.nodes[s].ast), "the prefix/suffix search runs only after the exact lookup failed",
-                 "parse_unit_name is reachable without first trying the exact name/alias/symbol lookup: a defined spelling can be re-read as prefix+unit", witness(cfg, p))
-        # ... and only through its KeyError
+        # idiom A: try: return self._units[x].name / except KeyError -> search;  idiom B: if x in self._units: return ...; search
+        pa = undominated(cfg, [s], exact)
+        via_exc = all(any(lab == "exc" for (v, lab) in cfg.succ[e]) and s in cfg.reach([v for (v, lab) in cfg.succ[e] if lab == "exc"]) for e in exact)
+        okA = pa is None and via_exc
+        pb = shape.reachable_without(cfg, [s], absent) if absent else [cfg.entry]
+        okB = bool(absent) and pb is None
+        ck.check(okA or okB, "G-DOM", "get_name|exact-lookup-before-prefix-search", fi.loc(cfg.nodes[s].ast), "the prefix/suffix search runs only after the exact lookup failed",
+                 "parse_unit_name is reachable without first trying the exact name/alias/symbol lookup: a defined spelling can be re-read as prefix+unit", witness(cfg, pa if not okB else pb))
+        ck.check(okA or okB, "G-DOM", "get_name|search-only-after-keyerror", fi.loc(cfg.nodes[s].ast), "reached only through the failed exact lookup (KeyError or failed membership test)", "the search is not reached through the failed exact lookup")
         for e in exact:
-            ok = any(lab == "exc" for (v, lab) in cfg.succ[e]) and s in cfg.reach([v for (v, lab) in cfg.succ[e] if lab == "exc"])
-            ck.check(ok, "G-DOM", "get_name|search-only-after-keyerror", fi.loc(cfg.nodes[s].ast), "reached through the failed lookup", "the search is not reached through the failed exact lookup")
             key = cfg.nodes[e].ast.value.value.slice
             c = [c for c in ast.walk(cfg.nodes[s].ast) if isinstance(c, ast.Call) and call_name(c) == "parse_unit_name"][0]
             ck.check(norm(c.args[0]) == norm(key), "G-PROV", "get_name|same-string-looked-up-and-searched", fi.loc(c), "the same string is looked up and decomposed", f"exact lookup uses `{norm(key)}` but the search decomposes `{norm(c.args[0])}`")
@@ -152,7 +159,9 @@ def run(ck, ix, tier):
     fi = ix.func(PR, "GenericPlainRegistry._yield_unit_triplets")
     ck.analysed(fi)
     ys = [y for y in walk_local(fi.node) if isinstance(y, ast.Yield)]
-    ck.check(len(ys) == 2, "G-TWIN", "_yield_unit_triplets|two-branches", fi.loc(), "case-sensitive and case-insensitive branch", f"{len(ys)} yield sites found (expected 2)")
+    ck.check(len(ys) >= 1, "G-TWIN", "_yield_unit_triplets|two-branches", fi.loc(), "candidate triplets are yielded (each site checked below)", "no candidate triplet is yielded any more")
+    cs_tests = [t for t in ast.walk(fi.node) if isinstance(t, (ast.If, ast.IfExp)) and any(isinstance(x, ast.Name) and x.id == "case_sensitive" for x in ast.walk(t.test))]
+    ck.check(len(cs_tests) >= 1, "G-TWIN", "_yield_unit_triplets|case-sensitivity-distinguished", fi.loc(), "case-sensitive and case-insensitive lookups are distinguished", "the case_sensitive flag is no longer consulted")
     shapes = []
     for y in ys:
         v = y.value
@@ -193,24 +202,36 @@ def run(ck, ix, tier):
     cfg = cfg_of(fi)
     subst = nodes_with(cfg, lambda x: isinstance(x, ast.Assign) and norm(x.targets[0]) == "cname" and "'delta_'" in norm(x.value))
     ck.check(len(subst) == 1, "G-DOM", "_parse_units_as_container|delta-substitution-present", fi.loc(), "delta substitution present", "the delta_ substitution for offset units in compound expressions is gone")
-    def _is_delta_guard(t):
-        if not (isinstance(t, ast.BoolOp) and isinstance(t.op, ast.And) and len(t.values) == 2 and norm(t.values[0]) == "as_delta"):
+    from .. import shape
+    loopv = [l for l in walk_local(fi.node) if isinstance(l, ast.For) and any(isinstance(x, ast.Name) and x.id == "units" for x in ast.walk(l.iter))]
+    expv = {"units[name]"}
+    if loopv and isinstance(loopv[0].target, ast.Tuple) and len(loopv[0].target.elts) == 2:
+        expv.add(norm(loopv[0].target.elts[1]))
+
+    def _is_compound_or_exponent(a_):
+        """`<more than one unit> or <exponent != 1>` (the second operand may repeat `not many and`)"""
+        if not (isinstance(a_, ast.BoolOp) and isinstance(a_.op, ast.Or) and len(a_.values) == 2):
             return False
-        o = t.values[1]
-        if not (isinstance(o, ast.BoolOp) and isinstance(o.op, ast.Or) and len(o.values) == 2 and norm(o.values[0]) == "many"):
-            return False
-        return norm(o.values[1]).replace("(", "").replace(")", "") in ("value != 1", "not many and value != 1")
-    g1 = [n.id for n in cfg.nodes if n.kind == "test" and _is_delta_guard(n.ast)]
-    g2 = [n.id for n in cfg.nodes if n.kind == "test" and norm(n.ast) == "not definition.is_multiplicative"]
+        first = shape.rnorm(a_.values[0], fi.node, 1)
+        second = a_.values[1]
+        if isinstance(second, ast.BoolOp) and isinstance(second.op, ast.And) and len(second.values) == 2 and isinstance(second.values[0], ast.UnaryOp):
+            second = second.values[1]
+        sx = shape.resolve(second, fi.node, 1)
+        return first == "len(units) > 1" and isinstance(second, ast.Compare) and isinstance(second.ops[0], ast.NotEq) and norm(second.comparators[0]) == "1" and (norm(second.left) in expv or norm(sx.left) in expv)
+    is_as_delta = lambda a_: isinstance(a_, ast.Name) and a_.id == "as_delta"
+    is_mult = lambda a_: isinstance(a_, ast.Attribute) and a_.attr == "is_multiplicative" and ("self._units[cname]" in norm(a_.value) or "self._units[cname]" in shape.rnorm(a_.value, fi.node, 1))
     for s in subst:
-        for name, g in (("compound-or-exponent", g1), ("non-multiplicative", g2)):
-            p = cfg.all_paths_pass(cfg.entry, [s], [], avoid_edges=[(x, "t") for x in g])
-            ck.check(bool(g) and p is None, "G-DOM", f"_parse_units_as_container|delta-only-if-{name}", fi.loc(cfg.nodes[s].ast), f"substitution guarded by the {name} test",
-                     f"offset units are replaced by delta units without the {name} guard", witness(cfg, p))
+        st = cfg.nodes[s].ast
+        ck.check(shape.holds_at(st, fi.node, is_as_delta, True) and shape.holds_at(st, fi.node, _is_compound_or_exponent, True), "G-DOM", "_parse_units_as_container|delta-only-if-compound-or-exponent", fi.loc(st),
+                 "substitution only with as_delta and for a compound expression or an exponent other than 1", "offset units are replaced by delta units without the `as_delta and (more than one unit or exponent != 1)` guard")
+        ck.check(shape.holds_at(st, fi.node, is_mult, False), "G-DOM", "_parse_units_as_container|delta-only-if-non-multiplicative", fi.loc(st), "substitution only for non-multiplicative units",
+                 "offset units are replaced by delta units without the non-multiplicative guard (multiplicative units would get a delta_ twin that does not exist)")
     src = norm(fi.node)
-    ck.check("many = len(units) > 1" in src, "G-PROV", "_parse_units_as_container|many-means-more-than-one-unit", fi.loc(), "compound = more than one unit", "`many` is no longer len(units) > 1")
-    ck.check("cname = self.get_name(name, case_sensitive=case_sensitive)" in src and "ret = ret.add(cname, value)" in src and "value = units[name]" in src, "G-PROV", "_parse_units_as_container|canonical-names-with-exponents", fi.loc(),
-             "every unit is added under its canonical name with its exponent", "units are no longer accumulated as ret.add(get_name(name), units[name])")
+    adds = [c_ for c_ in walk_local(fi.node) if isinstance(c_, ast.Call) and call_name(c_) == "add" and len(c_.args) == 2 and norm(c_.args[0]) == "cname"]
+    ck.check(len(adds) == 1 and (norm(adds[0].args[1]) in expv or shape.rnorm(adds[0].args[1], fi.node, 1) in expv), "G-PROV", "_parse_units_as_container|many-means-more-than-one-unit", fi.loc(), "every unit is accumulated with its own exponent", "units are no longer accumulated with their own exponent")
+    okn = any(isinstance(a_, ast.Assign) and norm(a_.targets[0]) == "cname" and isinstance(a_.value, ast.Call) and call_name(a_.value) == "get_name" and "case_sensitive=case_sensitive" in norm(a_.value) for a_ in walk_local(fi.node))
+    ck.check(okn and len(adds) == 1, "G-PROV", "_parse_units_as_container|canonical-names-with-exponents", fi.loc(),
+             "every unit is added under its canonical name with its exponent", "units are no longer accumulated under get_name(name, case_sensitive=...) with their exponent")
     sc = [n.id for n in cfg.nodes if n.kind == "test" and norm(n.ast) == "units.scale != 1"]
     ck.check(bool(sc) and all(edge_leads_only_to_raise(cfg, t, "t") is None for t in sc), "G-DOM", "_parse_units_as_container|scaling-factor-rejected", fi.loc(), "a numeric factor in a unit expression raises", "unit expressions with a scaling factor are no longer rejected")
     fi = ix.func(NR, "GenericNonMultiplicativeRegistry.parse_units_as_container")
